@@ -44,6 +44,7 @@ type HarnessSpec struct {
 	Tier           string               `json:"tier"` // "" = both, "thorough" = thorough only
 	KnownPanics    []KnownPanic         `json:"known_panics"`
 	NoReplay       bool                 `json:"no_replay"`
+	NoValidate     bool                 `json:"no_validate"` // skip the native re-run of completed-path models
 }
 
 type KnownPanic struct {
@@ -109,6 +110,14 @@ type harnessRun struct {
 	inconc    []string
 	stopped   bool
 	samples   []any
+	okModels  []okSample // models of completed paths, replayed natively as translator validation
+	wantOK    int
+}
+
+type okSample struct {
+	Params map[string]int
+	Model  map[string]uint64
+	Events []string
 }
 
 type foundViolation struct {
@@ -225,6 +234,8 @@ type runner struct {
 	replayed  int
 	seenKF    map[string]bool
 	loadTotal float64
+	validated int
+	validationNotes []string
 }
 
 // Unit is one Go package under test with its overlay files and harness functions.
@@ -642,6 +653,12 @@ func (r *runner) runUnit() ([]*harnessRun, []*sym.Machine, bool) {
 				j.h.mu.Unlock()
 				if !skip {
 					m.Params = j.inst.params
+					j.h.mu.Lock()
+					m.WantOkModel = !j.h.spec.Twin && !j.h.spec.NoReplay && !j.h.spec.NoValidate && len(j.h.okModels) < 3 && j.h.wantOK < 12
+					if m.WantOkModel {
+						j.h.wantOK++
+					}
+					j.h.mu.Unlock()
 					res := m.RunPath(j.h.fn, j.item)
 					alts = r.record(j, &res)
 				}
@@ -687,6 +704,9 @@ func (r *runner) record(j job, res *sym.PathResult) []sym.WorkItem {
 	}
 	if len(h.samples) < 3 && res.SymDecs > 0 && (res.Outcome == "ok" || res.Outcome == "panic") {
 		h.samples = append(h.samples, map[string]any{"harness": h.spec.Func, "instance": j.inst.key, "outcome": res.Outcome, "decisions": res.Path, "reached": res.Reached, "steps": res.Steps, "note": trunc(res.Msg, 200)})
+	}
+	if res.Outcome == "ok" && res.OkModel != nil && len(h.okModels) < 3 {
+		h.okModels = append(h.okModels, okSample{Params: j.inst.params, Model: res.OkModel, Events: res.Events})
 	}
 	for _, k := range res.Known {
 		if _, dup := h.known[k.ID]; !dup {
@@ -836,6 +856,81 @@ func (r *runner) collect(hruns []*harnessRun) {
 			exit = 1
 		}
 	}
+	if os.Getenv("GOSYM_NO_VALIDATE") == "" {
+		agreed, bad := r.validate(hruns)
+		r.validated += agreed
+		r.validationNotes = append(r.validationNotes, bad...)
+	}
+}
+
+// validate re-runs models of completed (assertion-clean) paths natively: the real build must
+// complete them without tripping an assertion or panicking. It returns how many agreed and a
+// description of those that did not.
+func (r *runner) validate(hruns []*harnessRun) (int, []string) {
+	type item struct {
+		fn   string
+		file string
+	}
+	dir, err := os.MkdirTemp("", "gosym-validate-")
+	if err != nil {
+		return 0, nil
+	}
+	defer os.RemoveAll(dir)
+	if os.Getenv("GOSYM_KEEP") != "" {
+		fmt.Fprintln(os.Stderr, "validation scratch kept at", dir+".kept")
+		defer os.Rename(dir, dir+".kept")
+	}
+	var items []item
+	for _, h := range hruns {
+		for i, s := range h.okModels {
+			mb, _ := json.Marshal(map[string]any{"params": s.Params, "values": s.Model, "events": s.Events})
+			f := filepath.Join(dir, fmt.Sprintf("%s-%d.json", h.spec.Func, i))
+			os.WriteFile(f, mb, 0o644)
+			items = append(items, item{h.spec.Func, f})
+		}
+	}
+	if len(items) == 0 {
+		return 0, nil
+	}
+	var sb strings.Builder
+	fmt.Fprintf(&sb, "package %s\n\nimport \"testing\"\n\nfunc TestVsymValidate(t *testing.T) {\n", r.pkgName)
+	for _, it := range items {
+		fmt.Fprintf(&sb, "\tvsymUseModel(%q)\n\tvsymRunReplay(%q, %s)\n", it.file, it.fn, it.fn)
+	}
+	sb.WriteString("}\n")
+	rtPath := filepath.Join(dir, "rt.go")
+	os.WriteFile(rtPath, []byte(strings.Replace(rtTemplate, "PKGNAME", r.pkgName, 1)), 0o644)
+	testPath := filepath.Join(dir, "validate_test.go")
+	os.WriteFile(testPath, []byte(sb.String()), 0o644)
+	repl := map[string]string{}
+	ov, _ := r.overlayFiles(true)
+	for dst, src := range ov {
+		repl[dst] = src
+	}
+	repl[filepath.Join(r.pkgDir, "zz_vsym_rt.go")] = rtPath
+	repl[filepath.Join(r.pkgDir, "zz_vsym_validate_test.go")] = testPath
+	ob, _ := json.Marshal(map[string]any{"Replace": repl})
+	ovPath := filepath.Join(dir, "overlay.json")
+	os.WriteFile(ovPath, ob, 0o644)
+	cmd := exec.Command("go", "test", "-vet=off", "-count=1", "-timeout", "900s", "-run", "^TestVsymValidate$", "-v", "-overlay", ovPath, spec2pattern(r.spec.Package))
+	cmd.Dir = r.modDir
+	cmd.Env = r.toolEnv()
+	out, _ := cmd.CombinedOutput()
+	re := regexp.MustCompile(`VSYM-OUTCOME (\S+) (.*)`)
+	ms := re.FindAllStringSubmatch(string(out), -1)
+	agreed := 0
+	var bad []string
+	for i, m := range ms {
+		if m[2] == "ok" {
+			agreed++
+		} else if i < len(items) {
+			bad = append(bad, fmt.Sprintf("%s: native outcome %q for a path the executor completed", m[1], trunc(m[2], 120)))
+		}
+	}
+	if len(ms) < len(items) {
+		bad = append(bad, fmt.Sprintf("native validation run ended after %d of %d models: %s", len(ms), len(items), trunc(string(out), 300)))
+	}
+	return agreed, bad
 }
 
 func (r *runner) storeReplay(h *harnessRun, v *foundViolation) string {
@@ -1033,7 +1128,10 @@ func (r *runner) writeEvidenceFull(hruns []*harnessRun, exit int, inconc []strin
 	cov := map[string]any{
 		"states":                        max1(paths),
 		"transitions":                   max1(decisions),
-		"traces_validated_against_impl": replayed,
+		"traces_validated_against_impl": replayed + r.validated,
+		"native_replays_of_counterexamples": replayed,
+		"native_reruns_of_completed_paths":  r.validated,
+		"native_rerun_disagreements":        r.validationNotes,
 		"samples":                       samples,
 		"evaluations":                   max1(paths),
 		"distinct_nontrivial":           symPaths,
